@@ -54,21 +54,39 @@ fn opt_nat(o: &Option<usize>) -> String {
     }
 }
 
-fn enc<C, I>(mut codec: C, item: I) -> String
+fn enc<C, I>(codec: C, item: I) -> String
 where
     C: Encoder<I, Error = std::io::Error>,
 {
-    let mut buf = BytesMut::new();
+    enc_pre(codec, item, &[])
+}
+
+/// encode behind `pre` bytes that are already waiting in the output buffer
+fn enc_pre<C, I>(mut codec: C, item: I, pre: &[u8]) -> String
+where
+    C: Encoder<I, Error = std::io::Error>,
+{
+    let mut buf = BytesMut::from(pre);
     match codec.encode(item, &mut buf) {
-        Ok(()) => format!("ok {}", hex(&buf)),
+        Ok(()) => {
+            if buf.len() >= pre.len() && buf[..pre.len()] == *pre {
+                format!("ok {}", hex(&buf[pre.len()..]))
+            } else {
+                format!("ok-but-buffered-bytes-damaged {}", hex(&buf))
+            }
+        }
         Err(e) => {
-            if buf.is_empty() {
+            if buf[..] == *pre {
                 format!("err:{}", kind_tok(e.kind()))
             } else {
                 format!("err:{}+partial:{}", kind_tok(e.kind()), hex(&buf))
             }
         }
     }
+}
+
+fn pre_of(tok: &str) -> Option<Vec<u8>> {
+    p_bytes(tok.strip_prefix("pre=")?)
 }
 
 fn run_op(line: &str) -> Option<(String, String)> {
@@ -108,6 +126,38 @@ fn run_op(line: &str) -> Option<(String, String)> {
                 format!("{} {}", hex(format!("{s}").as_bytes()), class_tok(s)),
             )
         }
+        ["tcpreq", tid, u, r, pre] => same(
+            line,
+            enc_pre(
+                verif_hooks::tcp::ClientCodec::default(),
+                (p_u16(tid)?, p_u8(u)?, p_request(r)?),
+                &pre_of(pre)?,
+            ),
+        ),
+        ["rtureq", u, r, pre] => same(
+            line,
+            enc_pre(
+                verif_hooks::rtu::ClientCodec::default(),
+                (p_u8(u)?, p_request(r)?),
+                &pre_of(pre)?,
+            ),
+        ),
+        ["tcprsp", tid, u, r, pre] => same(
+            line,
+            enc_pre(
+                verif_hooks::tcp::ServerCodec::default(),
+                (p_u16(tid)?, p_u8(u)?, p_response_result(r)?),
+                &pre_of(pre)?,
+            ),
+        ),
+        ["rtursp", u, r, pre] => same(
+            line,
+            enc_pre(
+                verif_hooks::rtu::ServerCodec::default(),
+                (p_u8(u)?, p_response_result(r)?),
+                &pre_of(pre)?,
+            ),
+        ),
         ["tcpreq", tid, u, r] => same(
             line,
             enc(
